@@ -231,6 +231,9 @@ def prepare(wl, ctx, stats):
 
     viols = []
     seed = int(wl["data"].get("noise_seed", 1)) % 100000
+    # every fourth job uses one of the seeds people actually type
+    if seed % 4 == 0:
+        seed = [0, 1, 42, 1234][(seed // 4) % 4]
     ident = random.Random(seed).choice(["CIRCUIT_1", "CIRCUIT_2", "CIRCUIT_5", "CIRCUIT_8"])
     try:
         np.random.seed(seed)
